@@ -350,6 +350,28 @@ pub fn at_position(ctx: &mut Ctx, s: &Session, l1: &[Mv], game_tf: &ThreeFold) -
     let empty = ThreeFold::new();
     let use_hist = mode != Prop::C13 && ctx.tape.choose(2) == 1;
     let tf = if use_hist { game_tf } else { &empty };
+    // F-HIST: a repetition table in which the root or one of its successors has already
+    // occurred very often (games nobody stopped at the third occurrence); the counters
+    // involved are 8 bits wide
+    let mut heavy = ThreeFold::new();
+    let heavy_used = mode == Prop::C11 && ctx.tape.choose(8) == 7;
+    if heavy_used {
+        ctx.stats.bump("fault.history.saturated-table");
+        let n = *ctx.tape.pick(&[255u32, 254, 256, 300, 3, 2]);
+        let target = if l1.is_empty() || ctx.tape.choose(4) == 0 {
+            s.board
+        } else {
+            let m = *ctx.tape.pick(l1);
+            match op(Op::Apply, || s.board.move_new(sut::mv(m))) {
+                Some(b) => b,
+                None => s.board,
+            }
+        };
+        for _ in 0..n {
+            op(Op::Search, || heavy.add(target));
+        }
+    }
+    let (tf, use_hist) = if heavy_used { (&heavy, true) } else { (tf, use_hist) };
     match mode {
         Prop::C11 => enumerate_expiry(ctx, s, l1, tf, use_hist),
         Prop::C12 => mate_in_one(ctx, s, l1, tf),
